@@ -96,6 +96,15 @@ def r2_burn_in(ctx, rid="C17.R2", title="histories appended only after burn-in, 
                           "so the samples averaged for one subject depend on the other subjects' chains")
         else:
             ctx.check(ok, rid, g, c, "kept only when not in burn-in", f"`{U(c)[:60]}` also records burn-in iterations: the returned mean / best draw includes samples taken before convergence")
+    # ... and "burn-in" means the configured number of iterations, nothing else: the kept draws are those of iterations n_burn_in_iter+1 .. n_iter
+    from ..astq import canon_lines
+    bi = ctx.ix.func("leaspy.algo.algo_with_samplers", "AlgorithmWithSamplersMixin._is_burn_in", rid)
+    bl = canon_lines(bi.node, True, True)
+    B_OK = {"return $0.current_iteration <= $0.algo_parameters['n_burn_in_iter']", "return not $0.current_iteration > $0.algo_parameters['n_burn_in_iter']",
+            "return $0.algo_parameters['n_burn_in_iter'] >= $0.current_iteration"}
+    ctx.form(rid, bi, bi.node, "; ".join(bl), B_OK, ["$0.current_iteration", "$0.algo_parameters['n_burn_in_iter']"], "burn-in <=> iteration <= configured n_burn_in_iter",
+             "the burn-in test no longer compares the iteration number with the configured `n_burn_in_iter`", forbidden=[r"\bif\b", r"\bor\b", r"\band\b", r"max\(", r"min\(", r"<\s(?!=)", r"annealing"],
+             construct="def _is_burn_in")
     ctx.check(len(guard_nodes) == 1, rid, g, g.node, "all histories appended under the same test (equal lengths)", "the histories are appended under different tests: their lengths can differ",
               construct="same guard for all histories")
     # what is appended
